@@ -236,14 +236,24 @@ class InjectedFailure(Exception):
     pass
 
 
+_EXC_KINDS = {"injected": InjectedFailure, "type": TypeError, "attribute": AttributeError,
+              "value": ValueError, "key": KeyError, "index": IndexError}
+
+
 class FailingScorer:
-    def __init__(self, inner, k):
+    """The caller's scorer: raises at its k-th call (an exception type of the caller's own, or
+    one of the builtin ones a buggy scorer would raise); with a k never reached it is a healthy
+    scorer of the very same class."""
+
+    def __init__(self, inner, k, exc="injected"):
         self.inner, self.k, self.n = inner, k, 0
+        self.exc, self.fired = exc, False
 
     def _tick(self):
         self.n += 1
         if self.n == self.k:
-            raise InjectedFailure("scorer call %d" % self.k)
+            self.fired = True
+            raise _EXC_KINDS[self.exc]("scorer call %d" % self.k)
 
     def score(self, txt, ts, pp):
         self._tick()
@@ -292,8 +302,13 @@ class World:
         if kind == "CALL":
             e = op["e"]
             kw = entries.kwargs(lib, pool[e])
+            if op.get("wrapped"):
+                # the same scorer behind a healthy instance of the class that failed elsewhere
+                kw["scorer"] = FailingScorer(kw.get("scorer") or lib["ctparse"]._DEFAULT_SCORER,
+                                             10 ** 12)
             sc = kw.get("scorer")
-            judge_arg = sc is not None and type(sc).__name__ != "RandomScorer"
+            judge_arg = sc is not None and type(sc).__name__ not in ("RandomScorer",
+                                                                     "FailingScorer")
             before = _obj_digest(sc) if judge_arg else None
             try:
                 r = lib["ctparse"].ctparse(pool[e]["text"], **kw)
@@ -372,16 +387,23 @@ class World:
         elif kind == "FAIL":
             e = op["e"]
             inner = entries.mk_scorer(lib, pool[e].get("scorer")) or lib["ctparse"]._DEFAULT_SCORER
-            sc = FailingScorer(inner, op["k"])
+            sc = FailingScorer(inner, op["k"], op.get("exc", "injected"))
             try:
                 r = lib["ctparse"].ctparse(pool[e]["text"], **entries.kwargs(lib, pool[e], sc))
                 got = {"call": core.cand_key(r)}
-                self.obs.append([i, "FAIL", e, "completed"])
-                self.check_call(e, got, where)
-            except InjectedFailure:
-                self.stats["faults"]["callback_raise"] += 1
-                self.obs.append([i, "FAIL", e, "raised"])
+                if sc.fired:
+                    # the library swallowed the caller's exception and went on: whatever it
+                    # returned is not what a fresh process returns for a scorer that works
+                    self.obs.append([i, "FAIL", e, "swallowed"])
+                    self.stats["faults"]["callback_raise"] += 1
+                else:
+                    self.obs.append([i, "FAIL", e, "completed"])
+                    self.check_call(e, got, where)
             except Exception as ex:
+                if sc.fired and isinstance(ex, _EXC_KINDS[sc.exc]):
+                    self.stats["faults"]["callback_raise"] += 1
+                    self.obs.append([i, "FAIL", e, "raised"])
+                    return
                 # the library itself raised before the caller's scorer did: compare with what a
                 # fresh process does for this entry (normally: it completes)
                 got = {"exc": "%s: %s" % (type(ex).__name__, ex)}
@@ -782,7 +804,11 @@ def _client_script(rng, c, n_entries, handle_base):
                     ops.append({"op": "STEP", "h": h, "c": c})
             h += 1
         elif r < 0.85:
-            ops.append({"op": "FAIL", "e": e, "k": rng.choice([1, 2, 3, 5, 9, 17, 40]), "c": c})
+            ops.append({"op": "FAIL", "e": e, "k": rng.choice([1, 2, 3, 5, 9, 17, 40]), "c": c,
+                        "exc": rng.choice(["injected", "injected", "type", "attribute", "value",
+                                           "key", "index"])})
+            if rng.random() < 0.6:
+                ops.append({"op": "CALL", "e": rng.randrange(n_entries), "c": c, "wrapped": True})
         elif r < 0.88:
             ops.append({"op": "CRASH", "c": c, "gen": rng.random() < 0.4, "steps": rng.choice([1, 3, 50]),
                         "how": rng.choice([["tomorrow", "9999-12-31T10:00:00"],
